@@ -35,7 +35,7 @@ theorem houseDepositO_params {s : State} {r : State × Nat} {c : Nat} {tk : Tk} 
     (h : houseDepositO s c tk m a pd = some r) : r.1.params = s.params := by
   unfold houseDepositO at h
   simp only [bind, Option.bind_eq_some_iff, pure, Option.some.injEq] at h
-  obtain ⟨_, _, _, _, _, _, s1, h1, _, _, mk, _, b, _, _, _, _, _, _, _, s2, h2, s3, h3, rfl⟩ := h
+  obtain ⟨_, _, _, _, _, _, s1, h1, _, _, mk, _, b, _, _, _, _, _, _, _, _, _, s2, h2, s3, h3, rfl⟩ := h
   obtain ⟨_, rfl⟩ := grantStep_shape h1
   obtain ⟨_, _, rfl⟩ := bankSend_shape h2
   obtain ⟨_, _, rfl⟩ := bankSend_shape h3
